@@ -115,8 +115,18 @@ EmitNames == (MODE = "names" /\ w # <<>>) =>
                                tj |-> Judge(EscStr, Typed, LowerTab), to |-> Outcome(OutEsc)])>>)
    /\ PrintT(<<"CASE", ToJson([k |-> "build", sh |-> "typed", st |-> Ty, parts |-> BParts, out |-> Outcome(OutB),
                                jerr |-> FALSE, rt |-> IF OutB.ok THEN DropInsig(OutB.v) ELSE <<>>])>>)
+\* the same strings as the type of a PURL (when they are syntactically valid types): C08's last clause
+LookupPurl == PKG \o w \o <<47, 103, 47, 110>>                       \* pkg:<w>/g/n
+C08_NearTypes == (MODE = "lookup" /\ ValidType(w)) =>
+     /\ Agrees(ParseF(LookupPurl, Typed, LowerTab), Judge(LookupPurl, Typed, LowerTab))
+     /\ ParseF(LookupPurl, Generic, LowerTab).ok
+     /\ (ParseF(LookupPurl, Typed, LowerTab).ok <=> Lookup(w).ok)
 EmitLookup == MODE = "lookup" =>
-   PrintT(<<"CASE", ToJson([k |-> "tlookup", s |-> w, exp |-> IF Lookup(w).ok THEN [some |-> TRUE, v |-> Lookup(w).t] ELSE [some |-> FALSE]])>>)
+   /\ PrintT(<<"CASE", ToJson([k |-> "tlookup", s |-> w, exp |-> IF Lookup(w).ok THEN [some |-> TRUE, v |-> Lookup(w).t] ELSE [some |-> FALSE]])>>)
+   /\ (ValidType(w) =>
+         PrintT(<<"CASE", ToJson([k |-> "parse", s |-> LookupPurl, gj |-> Judge(LookupPurl, Generic, LowerTab),
+                                   go |-> Outcome(ParseF(LookupPurl, Generic, LowerTab)),
+                                   tj |-> Judge(LookupPurl, Typed, LowerTab), to |-> Outcome(ParseF(LookupPurl, Typed, LowerTab))])>>))
 EmitCombined == MODE = "combined" =>
    PrintT(<<"CASE", ToJson([k |-> "comb", t |-> Ty, s |-> w, split |-> Sp, out |-> Outcome(CombB),
                              joined |-> IF CombB.ok THEN JoinCombined(CombB.v) ELSE <<>>,
